@@ -24,13 +24,16 @@ Definition parse_u8 (l : bytes) : option N :=
 Definition mask_of_prefix (p : N) : N :=
   if p =? 0 then 0 else (N.shiftl 4294967295 (32 - p)) mod 4294967296.
 
+(* the text after the first '/', or "24" *)
+Definition len_part (text : bytes) : bytes :=
+  match find_byte 47 text with
+  | Some pos => skipn (S pos) text
+  | None => [50; 52]
+  end.
+
 (* Err 1 = invalid prefix length, Err 2 = invalid ip *)
 Definition parse_ip_netmask (text : bytes) (ip_ok : bool) : res N :=
-  let len_str := match find_byte 47 text with
-                 | Some pos => skipn (S pos) text
-                 | None => [50; 52] (* "24" *)
-                 end in
-  match parse_u8 len_str with
+  match parse_u8 (len_part text) with
   | None => Err 1
   | Some p => if 32 <? p then Err 1
               else if negb ip_ok then Err 2
